@@ -11,7 +11,7 @@ REQUIRED_THEOREMS = ["Gv.Props.C13." + n for n in [
     "patternTable_mem", "compress_columns", "compress_spec", "compress_additive_statistic",
     # the Go-mirroring model of Deduplicate
     "dedup_model_eq_reference", "firstOccs_mem_iff", "dedup_keeps_first_occurrences_in_order",
-    "dedup_groups_partition_names", "dedup_group_led_by_kept", "dedup_idempotent",
+    "dedup_groups_partition_names", "dedup_group_led_by_kept", "dedup_idempotent", "lookup_tables_keyed_by_content",
     "dedupKey_spec", "dedupKey_nt_eq_iff", "dedup_sequences_any_names",
     # kernel-checked witnesses that the distinct-names assumption is needed
     "dedup_repeated_names_renamed", "dedup_repeated_names_dropped"]]
